@@ -3785,9 +3785,21 @@ impl ScalarValue {
                 ) -> Result<ArrayRef> {
                     let size_native = R::Native::from_usize(size)
                         .ok_or_else(|| DataFusionError::Execution(format!("Cannot construct RunArray of size {size}: Overflows run-ends type {}", R::DATA_TYPE)))?;
-                    let values = value.to_array_of_size(1)?;
-                    let run_ends =
-                        PrimitiveArray::<R>::new(vec![size_native].into(), None);
+                    // An empty run array has no runs at all: a run end of 0 is invalid.
+                    let (values, run_ends) = if size == 0 {
+                        (
+                            value.to_array_of_size(0)?,
+                            PrimitiveArray::<R>::new(
+                                Vec::<R::Native>::new().into(),
+                                None,
+                            ),
+                        )
+                    } else {
+                        (
+                            value.to_array_of_size(1)?,
+                            PrimitiveArray::<R>::new(vec![size_native].into(), None),
+                        )
+                    };
 
                     // Using ArrayDataBuilder so we can maintain the fields
                     let dt = DataType::RunEndEncoded(
